@@ -349,6 +349,17 @@ BAD_GATES = [
     ("target list with negative", dict(name="CRZ", target=[0], control=[2, -1], parameter=0.2)),
     ("numpy float target", dict(name="X", target=np.float64(1.0))),
     ("target in control list", dict(name="CZ", target=[3], control=[1, 3])),
+    # index containers (lists, tuples, numpy arrays of any dtype) holding non-integers
+    ("float ndarray target 1.5", dict(name="X", target=np.array([1.5]))),
+    ("float ndarray target -0.5", dict(name="X", target=np.array([-0.5]))),
+    ("float-dtype ndarray target 1.0", dict(name="X", target=np.array([1.0]))),
+    ("float ndarray control 2.7", dict(name="CX", target=[0], control=np.array([2.7]))),
+    ("float ndarray two targets", dict(name="SWAP", target=np.array([0.2, 1.9]))),
+    ("float in target list", dict(name="X", target=[1.5])),
+    ("float in control tuple", dict(name="CRY", target=0, control=(1, 2.5), parameter=0.3)),
+    ("negative in int ndarray", dict(name="CZ", target=np.array([1]), control=np.array([-1]))),
+    ("bool ndarray target", dict(name="X", target=np.array([True]))),
+    ("duplicate in ndarray controls", dict(name="CX", target=0, control=np.array([2, 2]))),
 ]
 
 
